@@ -660,9 +660,31 @@ def m_seq_clone(I, fr, a, ck):
     return I.peel_all(a[0], fr)
 
 
+def m_index_mut(I, fr, a, ck):
+    r = a[0]
+    if not isinstance(r, MRef):
+        raise EngineError('index_mut on %s' % type(r).__name__)
+    s = _seq(I, fr, r)
+    idx = a[1]
+    if isinstance(idx, OrdId):
+        idx = idx.bv()
+    n = len(s.items)
+    if isinstance(idx, int):
+        if idx < 0 or idx >= n:
+            return Outs([panic(True, 'index out of bounds: the len is %d but the index is %d' % (n, idx))])
+        return MRef(r.cell, r.path + (('index', idx),))
+    inb = z3.ULT(idx, z3.BitVecVal(n, idx.size()))
+    outs = Outs([panic(gnot(inb), 'index out of bounds (len %d, symbolic index)' % n)])
+    if n:
+        outs.append(ret(MRef(r.cell, r.path + (('index', idx),)), inb))
+    return outs
+
+
 def m_index(I, fr, a, ck):
     s = _seq(I, fr, a[0])
     idx = a[1]
+    if isinstance(idx, OrdId):
+        idx = idx.bv()
     n = len(s.items)
     if isinstance(idx, Adt) and idx.ty in ('RangeFrom', 'Range', 'RangeTo', 'RangeFull', 'RangeInclusive'):
         fs = idx.alts[0][1]
@@ -1199,6 +1221,8 @@ def register_all(M):
     A('Vec', 'DerefMut', 'deref_mut', m_vec_deref_mut)
     A('Vec', 'Clone', 'clone', m_seq_clone)
     A('Vec', 'Index', 'index', m_index)
+    A('Vec', 'IndexMut', 'index_mut', m_index_mut)
+    A('slice', 'IndexMut', 'index_mut', m_index_mut)
     A('slice', 'Index', 'index', m_index)
     A('slice', None, 'is_empty', m_is_empty)
     A('slice', None, 'len', m_len)
@@ -1865,6 +1889,17 @@ def beq_(a, b):
     return to_bool(a) == to_bool(b)
 
 
+def m_option_and_then(I, fr, a, ck):
+    v, f = a
+    res = Outs()
+    if 0 in v.alts and not g_false(v.alts[0][0]):
+        res.append(ret(NONE, v.alts[0][0]))
+    if 1 in v.alts and not g_false(v.alts[1][0]):
+        for o in call_closure(I, fr, f, [v.alts[1][1][0]]):
+            res.append(Outcome(o.kind, gand(v.alts[1][0], o.guard), o.value, o.mem, o.msg))
+    return res
+
+
 def m_result_map_err(I, fr, a, ck):
     v, f = a
     res = Outs()
@@ -1900,6 +1935,7 @@ def m_result_ok(I, fr, a, ck):
 def register_ints(M):
     A = M.add
     A('Result', None, 'map_err', m_result_map_err)
+    A('Option', None, 'and_then', m_option_and_then)
     A('Result', None, 'map', m_result_map)
     A('Result', None, 'ok', m_result_ok)
     for tr, m in (('Shr', 'shr'), ('Shl', 'shl'), ('Add', 'add'), ('Sub', 'sub'), ('Mul', 'mul'), ('BitAnd', 'bitand'), ('BitOr', 'bitor'), ('BitXor', 'bitxor'), ('Not', 'not')):
